@@ -572,6 +572,7 @@ def run(ctx):
     t0 = _t(ctx, "classify+report", t0)
     # --- decoder correspondence: real code + byte-level mutants
     if not ctx.replay:
+        decode_lines = [l for l in vlib.corpus_lines("C29") if l.startswith("bc\tdecode")] + decode_lines
         base = [bytes.fromhex(l.split("\t")[2]) for l in decode_lines]
         for _ in range(ctx.n(QUICK_MUT, THOROUGH_MUT)):
             c = mutate_code(ctx.rng, ctx.rng.choice(base) if base else b"")
